@@ -65,9 +65,56 @@ class Api:
         v.old, v.new = list(old), list(new)
         return v
 
-    def fresh(self):
-        """the same API on system objects nobody has used yet"""
-        return self.view([k() for k in self.classes], [k() for k in self.classes])
+    def fresh(self, custom=False):
+        """the same API on system objects nobody has used yet; custom=True: systems constructed with user-supplied
+        base scalars and base vectors (vector FIELDS declared with a formal point argument, as test_coordinate_systems.py does)"""
+        if not custom:
+            return self.view([k() for k in self.classes], [k() for k in self.classes])
+        return self.view(self.custom_systems(), self.custom_systems())
+
+    def custom_systems(self):
+        # pylint: disable=import-outside-toplevel
+        from symplyphysics import Symbol, units, angle_type
+        from symplyphysics.core.experimental.vectors import VectorFunction, VectorSymbol
+        L = units.length
+        cart = self.classes[0](
+            base_scalars=[Symbol("ux", L, real=True), Symbol("uy", L, real=True), Symbol("uz", L, real=True)],
+            base_vectors=[VectorSymbol("ui"), VectorSymbol("uj"), VectorSymbol("uk")])
+        formal = self.AppliedPoint(cart.base_scalars, cart)        # "the generic point P"
+        cyl = self.classes[1](
+            base_scalars=[Symbol("urho", L, nonnegative=True), Symbol("uphi", angle_type, real=True), Symbol("uzz", L, real=True)],
+            base_vectors=[VectorFunction("ue_rho", arguments=(formal,)), VectorFunction("ue_phi", arguments=(formal,)), VectorSymbol("ue_z")])
+        sph = self.classes[2](
+            base_scalars=[Symbol("ur", L, nonnegative=True), Symbol("utheta", angle_type, nonnegative=True), Symbol("uph", angle_type, real=True)],
+            base_vectors=[VectorFunction("ue_r", arguments=(formal,)), VectorFunction("ue_theta", arguments=(formal,)),
+                          VectorFunction("ue_ph", arguments=(formal,))])
+        return [cart, cyl, sph]
+
+    @staticmethod
+    def bvs_at(system, point):
+        """the base vectors of `system` attached to `point`, built WITHOUT system.base_vectors()"""
+        return [bv(point) if callable(bv) else bv for bv in system.args[1]]
+
+    def make_point(self, coords, system, kind="list"):
+        """AppliedPoint from every kind of iterable its signature admits"""
+        c = list(coords)
+        if kind == "list":
+            it = c
+        elif kind == "tuple":
+            it = tuple(c)
+        elif kind == "dict_values":
+            it = {i: x for i, x in enumerate(c)}.values()
+        elif kind == "generator":
+            it = (x for x in c)
+        elif kind == "map":
+            it = map(lambda x: x, c)
+        elif kind == "iterator":
+            it = iter(c)
+        elif kind == "range":
+            it = range(int(c[0]), int(c[0]) + 3)
+        else:
+            raise ValueError(kind)
+        return self.AppliedPoint(it, system)
 
     # -- helpers ---------------------------------------------------------------------------------------------
     def vec_atoms(self, expr):
@@ -78,7 +125,7 @@ class Api:
         """replace the base vectors of `system` APPLIED AT `point` by the symbols E; any other vector-valued atom
         (a base vector of another system, or of this system attached to another point) is an error"""
         expr = sp.sympify(expr)
-        rep = dict(zip(system.base_vectors(point), E))
+        rep = dict(zip(self.bvs_at(system, point), E))
         out = expr.xreplace(rep)
         stray = self.vec_atoms(out)
         if stray:
@@ -101,25 +148,58 @@ class Api:
         pa = self.AppliedPoint(g, A)
         pb = self.AppliedPoint(g, B)
         m = self.cs.express_base_vectors(A, B, old_args=(pa,), new_args=(pb,))
-        olds = A.base_vectors(pa)
+        olds = self.bvs_at(A, pa)
         if list(m.keys()) != list(olds):
-            raise AssertionError("keys are not the old base vectors in order")
+            raise AssertionError(f"keys {list(m.keys())} are not the old base vectors at the old point, in order")
         rep = dict(zip(B.base_scalars, map(sp.sympify, q)))
         return [self.linear_coeffs(m[o], B, E, pb).xreplace(rep) for o in olds]
 
-    def cpoint(self, a, b, p):
+    def cpoint(self, a, b, p, kind="list"):
         A, B = self.old[a], self.new[b]
-        out = self.cs.convert_point(self.AppliedPoint(list(p), A), B)
+        pa = self.make_point(p, A, kind)
+        if list(pa.coordinates.keys()) != list(A.base_scalars):
+            raise AssertionError(f"a point built from a {kind} has coordinates {pa.coordinates} instead of one per base scalar")
+        before = dict(pa.coordinates)
+        out = self.cs.convert_point(pa, B)
+        if dict(pa.coordinates) != before or pa.system is not A:
+            raise AssertionError("convert_point changed its argument point")
         if out.system is not B or list(out.coordinates.keys()) != list(B.base_scalars):
             raise AssertionError("converted point is not expressed in the new system's scalars in order")
         return [out.coordinates[s] for s in B.base_scalars]
 
-    def cvec(self, a, b, c, p, E):
+    FORMS = ["flat", "irrational_factor", "symbolic_factor", "divided", "nested", "unevaluated"]
+
+    def vector_expr(self, form, c, e, t):
+        """the vector c.e written in an algebraically equivalent, not necessarily flat, form (t: a free positive number)"""
+        c = [sp.sympify(x) for x in c]
+        flat = c[0] * e[0] + c[1] * e[1] + c[2] * e[2]
+        if form == "flat":
+            return flat
+        if form == "irrational_factor":
+            r = sp.sqrt(2)
+            return r * (c[0] / r * e[0] + c[1] / r * e[1] + c[2] / r * e[2])
+        if form == "symbolic_factor":
+            return t * (c[0] / t * e[0] + c[1] / t * e[1] + c[2] / t * e[2])
+        if form == "divided":
+            r = sp.sqrt(3)
+            return (c[0] * r * e[0] + c[1] * r * e[1] + c[2] * r * e[2]) / r
+        if form == "nested":
+            return c[0] * e[0] + sp.pi * (c[1] / sp.pi * e[1] + t * (c[2] / (sp.pi * t) * e[2]))
+        if form == "generic_nested":        # components (c0, c1, c1*c2)
+            return c[0] * e[0] + c[1] * (e[1] + c[2] * e[2])
+        if form == "unevaluated":
+            return sp.Mul(sp.Integer(2), sp.Add(c[0] / 2 * e[0], c[1] / 2 * e[1], c[2] / 2 * e[2], evaluate=False), evaluate=False)
+        raise ValueError(form)
+
+    def cvec(self, a, b, c, p, E, form="flat", t=None):
         A, B = self.old[a], self.new[b]
         pa = self.AppliedPoint(list(p), A)
-        e = A.base_vectors(pa)
-        vec = sp.sympify(c[0]) * e[0] + sp.sympify(c[1]) * e[1] + sp.sympify(c[2]) * e[2]
+        e = self.bvs_at(A, pa)
+        vec = self.vector_expr(form, c, e, sp.Symbol("t", positive=True) if t is None else t)
+        before = dict(pa.coordinates)
         out = self.cs.convert_vector(vec, pa, B)
+        if dict(pa.coordinates) != before:
+            raise AssertionError("convert_vector changed its argument point")
         return self.linear_coeffs(out, B, E, self.cs.convert_point(pa, B))
 
     def lame(self, a, q):
@@ -205,8 +285,8 @@ class FreshProxy:
         self._base = base
         self._cur = base.fresh()
 
-    def renew(self):
-        self._cur = self._base.fresh()
+    def renew(self, custom=False):
+        self._cur = self._base.fresh(custom)
 
     def __getattr__(self, name):
         return getattr(self._cur, name)
@@ -218,10 +298,16 @@ def spec_checks(base_api: Api):
 
     def wrap(pred):
         def w(inp):
-            api.renew()
+            api.renew(bool(inp.get("custom")))
             return pred(inp)
         return w
-    return {k: (g, wrap(p)) for k, (g, p) in checks.items()}
+    def wrapg(g):
+        def w(rng):
+            inp = g(rng)
+            inp["custom"] = rng.random() < 0.5      # systems built with user-supplied base scalars / base vector fields
+            return inp
+        return w
+    return {k: (wrapg(g), wrap(p)) for k, (g, p) in checks.items()}
 
 
 def _spec_checks(api):
@@ -287,6 +373,49 @@ def _spec_checks(api):
             return close(got, want), {"new_components": newc, "new_point": newp, "their_cartesian_components": got}, \
                 {"cartesian_components": want}
         checks[f"convert_vector_{LOW[a]}_{LOW[b]}"] = (gen_p, pred_vec)
+
+    for (a, b) in PAIRS:
+        def gen_f(rng, a=a):
+            return {"coords": gen_regular(rng, a), "components": [away(rng), away(rng), away(rng)],
+                    "form": rng.choice(Api.FORMS[1:]), "t": rnd(rng, 0.3, 2.5)}
+
+        def pred_f(inp, a=a, b=b):
+            p, c = inp["coords"], inp["components"]
+            unit = lambda k: {E[j]: 1 if j == k else 0 for j in range(3)}
+            flat = api.cvec(a, b, fl(c), fl(p), E, "flat")
+            other = api.cvec(a, b, fl(c), fl(p), E, inp["form"], sp.Float(inp["t"], 30))
+            want = [num(flat.xreplace(unit(k))) for k in range(3)]
+            got = [num(other.xreplace(unit(k))) for k in range(3)]
+            newp = [num(e) for e in api.cpoint(a, b, fl(p))]
+            fa, fb = m_frame(a, p), m_frame(b, newp)
+            cart_want = [sum(c[i] * fa[i][k] for i in range(3)) for k in range(3)]
+            cart_got = [sum(got[i] * fb[i][k] for i in range(3)) for k in range(3)]
+            return close(got, want) and close(cart_got, cart_want), {"new_components": got, "their_cartesian_components": cart_got}, \
+                {"new_components_of_the_flat_form": want, "cartesian_components": cart_want}
+        checks[f"convert_vector_forms_{LOW[a]}_{LOW[b]}"] = (gen_f, pred_f)
+
+        def gen_i(rng, a=a):
+            kind = rng.choice(["tuple", "dict_values", "generator", "map", "iterator", "range"])
+            coords = gen_regular(rng, a) if kind != "range" else [1, 2, 3]
+            return {"coords": coords, "kind": kind}
+
+        def pred_i(inp, a=a, b=b):
+            ref = [num(e) for e in api.cpoint(a, b, fl(inp["coords"]) if inp["kind"] != "range" else inp["coords"], "list")]
+            got = [num(e) for e in api.cpoint(a, b, fl(inp["coords"]) if inp["kind"] != "range" else inp["coords"], inp["kind"])]
+            return close(got, ref), {"converted_from_" + inp["kind"]: got}, {"converted_from_list": ref}
+        checks[f"point_iterables_{LOW[a]}_{LOW[b]}"] = (gen_i, pred_i)
+
+    for a in range(3):
+        def gen_b(rng, a=a):
+            return {"coords": gen_regular(rng, a)}
+
+        def pred_b(inp, a=a):
+            A = api.old[a]
+            pt = api.AppliedPoint(fl(inp["coords"]), A)
+            got = list(A.base_vectors(pt))
+            want = Api.bvs_at(A, pt)
+            return got == want, {"base_vectors(point)": [str(x) for x in got]}, {"attached_to_the_point_asked_for": [str(x) for x in want]}
+        checks[f"base_vectors_at_point_{LOW[a]}"] = (gen_b, pred_b)
 
     for (a, b, c) in itertools.permutations(range(3), 3):
         def gen_t(rng, c=c):
@@ -382,20 +511,29 @@ def build(api: Api, gen: Gen):
         return True
 
     E = xs[3:6]
-    for (a, b) in PAIRS:
-        na, nb = LOW[a], LOW[b]
-        A, B = SYSN[a], SYSN[b]
-        leg(f"scal_{na}_{nb}", lambda p, q, r, a=a, b=b: api.scal(a, b, [p, q, r]),
-            f"express_base_scalars({na}, {nb})", 1, "V3", f"ExpCoords.scal {A} {B} u")
-        for i in range(3):
-            leg(f"bvec_{na}_{nb}_{i}", lambda p, q, r, e0, e1, e2, a=a, b=b, i=i: api.bvec(a, b, [p, q, r], [e0, e1, e2])[i],
-                f"express_base_vectors({na}, {nb}): old base vector {i}", 2, "R", f"dotv (mrow {i} (bvec {A} {B} u)) v")
-        leg(f"cpoint_{na}_{nb}", lambda p, q, r, a=a, b=b: api.cpoint(a, b, [p, q, r]),
-            f"convert_point({na} point, {nb})", 1, "V3", f"convert_point {A} {B} u")
-        leg(f"cvec_{na}_{nb}",
-            lambda c0, c1, c2, p, q, r, e0, e1, e2, a=a, b=b: api.cvec(a, b, [c0, c1, c2], [p, q, r], [e0, e1, e2]),
-            f"convert_vector(c.e, {na} point, {nb})", 3, "R", f"dotv (convert_vector {A} {B} u v) w",
-            proof="intros @INTRO@ H. unfold @NAME@. vp_ecorr_vec H.", hyp=f"regular {A} v")
+    for tag, ap in (("", api), ("u", api.fresh(custom=True))):
+        what = "" if not tag else " [systems built with user base scalars / base vector fields]"
+        for (a, b) in PAIRS:
+            na, nb = LOW[a], LOW[b]
+            A, B = SYSN[a], SYSN[b]
+            leg(f"{tag}scal_{na}_{nb}", lambda p, q, r, a=a, b=b, ap=ap: ap.scal(a, b, [p, q, r]),
+                f"express_base_scalars({na}, {nb}){what}", 1, "V3", f"ExpCoords.scal {A} {B} u")
+            for i in range(3):
+                leg(f"{tag}bvec_{na}_{nb}_{i}",
+                    lambda p, q, r, e0, e1, e2, a=a, b=b, i=i, ap=ap: ap.bvec(a, b, [p, q, r], [e0, e1, e2])[i],
+                    f"express_base_vectors({na}, {nb}): old base vector {i}{what}", 2, "R", f"dotv (mrow {i} (bvec {A} {B} u)) v")
+            leg(f"{tag}cpoint_{na}_{nb}", lambda p, q, r, a=a, b=b, ap=ap: ap.cpoint(a, b, [p, q, r]),
+                f"convert_point({na} point, {nb}){what}", 1, "V3", f"convert_point {A} {B} u")
+            leg(f"{tag}cvec_{na}_{nb}",
+                lambda c0, c1, c2, p, q, r, e0, e1, e2, a=a, b=b, ap=ap: ap.cvec(a, b, [c0, c1, c2], [p, q, r], [e0, e1, e2]),
+                f"convert_vector(c.e, {na} point, {nb}){what}", 3, "R", f"dotv (convert_vector {A} {B} u v) w",
+                proof="intros @INTRO@ H. unfold @NAME@. vp_ecorr_vec H.", hyp=f"regular {A} v")
+            # the same vector written as  c0*e0 + c1*(e1 + c2*e2)  (a product with a parenthesised sum, not a flat sum)
+            leg(f"{tag}cvecnested_{na}_{nb}",
+                lambda c0, c1, c2, p, q, r, e0, e1, e2, a=a, b=b, ap=ap: ap.cvec(a, b, [c0, c1, c2], [p, q, r], [e0, e1, e2], "generic_nested"),
+                f"convert_vector(c0*e0 + c1*(e1 + c2*e2), {na} point, {nb}){what}", 3, "R",
+                f"dotv (convert_vector {A} {B} (let '(c0, c1, c2) := u in (c0, c1, c1 * c2)) v) w",
+                proof="intros @INTRO@ H. unfold @NAME@. vp_ecorr_vec H.", hyp=f"regular {A} v")
     for a in range(3):
         leg(f"lame_{LOW[a]}", lambda p, q, r, a=a: api.lame(a, [p, q, r]), f"{LOW[a]}.lame_coefficients", 1, "V3", f"lame {SYSN[a]} u")
         leg(f"jacobian_{LOW[a]}", lambda p, q, r, a=a: api.jacobian(a, [p, q, r]), f"{LOW[a]}.jacobian", 1, "R", f"jacobian {SYSN[a]} u")
